@@ -577,3 +577,9 @@ Proof. intros. unfold vtt_shifted. apply us_shift. Qed.
 Lemma us_is_floor : forall q : Q,
   (inject_Z (us q) <= q * 1000000)%Q /\ (q * 1000000 < inject_Z (us q + 1))%Q.
 Proof. intros q. unfold us. split; [apply Qfloor_le|apply Qlt_floor]. Qed.
+
+(* ---- the repaired defect #7, on record: a fraction of more than three digits --------------- *)
+Lemma dfxp_long_fraction_refuted :
+  exists ds, digits_ok ds = true /\
+             dfxp_fraction_unfixed (digits_str ds) <> Ok (us (frac_q ds)).
+Proof. exists [1; 2; 3; 4]. split; [reflexivity|]. vm_compute. discriminate. Qed.
